@@ -115,6 +115,11 @@ def _triples(task):
 
 
 def run(chk):
+    from ..specalg import with_fallback
+    with_fallback(chk, _run)
+
+
+def _run(chk):
     quick = chk.tier == "quick"
     K2 = 3 if quick else 4
     K3 = 2 if quick else 3
